@@ -36,7 +36,9 @@ import (
 	stakingtypes "github.com/cosmos/cosmos-sdk/x/staking/types"
 
 	"github.com/medibloc/panacea-core/v2/app"
+	aoltypes "github.com/medibloc/panacea-core/v2/x/aol/types"
 	burntypes "github.com/medibloc/panacea-core/v2/x/burn/types"
+	pnfttypes "github.com/medibloc/panacea-core/v2/x/pnft/types"
 	didtypes "github.com/medibloc/panacea-core/v2/x/did/types"
 )
 
@@ -335,6 +337,41 @@ func (c *Chain) buildGenesis() (json.RawMessage, error) {
 			dg.Documents[didtypes.GenesisDIDDocumentKey{DID: fillerDID(i)}.Marshal()] = fillerDoc(i)
 		}
 		gs[didtypes.ModuleName] = cdc.MustMarshalJSON(&dg)
+	}
+	if c.Opts.Bulk > 0 {
+		// more entries than any default page size in every custom store, all owned by a4 (an account the bulk configurations leave out of their alphabet):
+		// topics f000.. (f000 with that many writers and records), denoms f000.. (f000 with that many tokens g000..)
+		n := c.Opts.Bulk
+		if n > maxBulk {
+			n = maxBulk
+		}
+		a4 := c.Accts["a4"]
+		var ag aoltypes.GenesisState
+		cdc.MustUnmarshalJSON(gs[aoltypes.ModuleName], &ag)
+		if ag.Owners == nil {
+			ag.Owners, ag.Topics, ag.Writers, ag.Records = map[string]*aoltypes.Owner{}, map[string]*aoltypes.Topic{}, map[string]*aoltypes.Writer{}, map[string]*aoltypes.Record{}
+		}
+		sep := aoltypes.GenesisKeySeparator
+		ag.Owners[a4.Bech] = &aoltypes.Owner{TotalTopics: uint64(n)}
+		for i := 0; i < n; i++ {
+			t := fmt.Sprintf("f%03d", i)
+			tp := &aoltypes.Topic{}
+			if i == 0 {
+				tp.TotalWriters, tp.TotalRecords = uint64(n), uint64(n)
+			}
+			ag.Topics[a4.Bech+sep+t] = tp
+			w := sdk.AccAddress([]byte(fmt.Sprintf("verif-bulk-wr-%03d----", i))[:20])
+			ag.Writers[a4.Bech+sep+"f000"+sep+w.String()] = &aoltypes.Writer{Moniker: "m", NanoTimestamp: blockTime(1).UnixNano()}
+			ag.Records[a4.Bech+sep+"f000"+sep+strconv.Itoa(i)] = &aoltypes.Record{Key: []byte("k"), Value: []byte(t), WriterAddress: w.String(), NanoTimestamp: blockTime(1).UnixNano()}
+		}
+		gs[aoltypes.ModuleName] = cdc.MustMarshalJSON(&ag)
+		var pg pnfttypes.GenesisState
+		cdc.MustUnmarshalJSON(gs[pnfttypes.ModuleName], &pg)
+		for i := 0; i < n; i++ {
+			pg.Denoms = append(pg.Denoms, &pnfttypes.Denom{Id: fmt.Sprintf("f%03d", i), Name: "x", Symbol: "S", Owner: a4.Bech})
+			pg.Pnfts = append(pg.Pnfts, &pnfttypes.Pnft{DenomId: "f000", Id: fmt.Sprintf("g%03d", i), Name: "x", Uri: "u", Creator: a4.Bech, Owner: a4.Bech, CreatedAt: blockTime(1)})
+		}
+		gs[pnfttypes.ModuleName] = cdc.MustMarshalJSON(&pg)
 	}
 	for mod, js := range c.Opts.CustomGen {
 		gs[mod] = json.RawMessage(js)
